@@ -241,6 +241,37 @@ def rule_k5(ctx):
                                 accs.add(l)
             if not accs:
                 raise AnchorMissing("K5: %s arm of %s does not fold with std::cmp::%s" % (variant, fid, call))
+            # every argument must take part in the fold: the loop over the arguments is only left early when the
+            # accumulator has reached the absorbing element of the fold (type MIN for min, type MAX for max)
+            absorbing = TYPE_MIN[ty] if variant == "Min" else TYPE_MAX[ty]
+            can_return = C06._can_return(body)
+            fold_blocks = {b for b in region if body.term(b)["k"] == "call" and mir.callee(body.term(b)) == "std::cmp::" + call}
+            for lp in body.loops():
+                if not (lp["body"] & fold_blocks):
+                    continue
+                nexts = set()
+                for b in lp["body"]:
+                    t = body.term(b)
+                    if t and t["k"] == "call" and t["func"].get("declared") == "std::iter::Iterator::next":
+                        nexts |= C06._next_test_blocks(body, b, lp["body"])
+                early = [u for u in lp["body"] if u in region and not body.blocks[u]["cleanup"] and
+                         any(s_ not in lp["body"] and s_ in can_return and u not in nexts for s_ in body.succs(u))]
+                if not early:
+                    res.ok({"function": fid, "fold": variant, "verdict": "loop over the arguments has no early exit"})
+                    continue
+                consts = []
+                for b in lp["body"]:
+                    for st in body.blocks[b]["stmts"]:
+                        if st["k"] == "assign" and st["rv"]["k"] == "binop" and st["rv"]["op"] in ("Eq", "Ne", "Le", "Ge", "Lt", "Gt"):
+                            for side, other in (("l", "r"), ("r", "l")):
+                                if st["rv"][side]["k"] == "const" and st["rv"][other]["k"] in ("copy", "move"):
+                                    consts.append(st["rv"][side].get("val"))
+                if consts and all(c == absorbing for c in consts):
+                    res.ok({"function": fid, "fold": variant, "verdict": "early exit only at the absorbing element %s" % absorbing})
+                else:
+                    res.bad(Finding("K5", fid, "%s fold stops early" % variant,
+                                    "the %s fold over %s constants leaves the argument loop early (tested against %s; only %s is absorbing): later arguments are ignored"
+                                    % (variant.lower(), ty, consts, absorbing), body.term(early[0])["sp"]))
             for acc in accs:
                 inits = [d for d in body.defs().get(acc, []) if d[0] == "assign" and d[1] in region and d[3]["rv"]["k"] == "use" and d[3]["rv"]["op"]["k"] == "const"]
                 if not inits:
